@@ -167,6 +167,7 @@ type Exec struct {
 	Samples   []Sample
 	InPass    bool
 	Par       int // 0 = serial deterministic graph; otherwise the graph's parallelism
+	Sorted    bool // compare events with the model as multisets (parallel graphs; nodes wider than the edge index threshold)
 	// hooks for oracles
 	OnEvent  func(Event)
 	OnAction func(Action)
@@ -539,7 +540,7 @@ func (e *Exec) Do(op Op) (out Sample) {
 	}
 	out.Events = e.events
 	out.Raw = e.events
-	if e.Par > 0 {
+	if e.Par > 0 || e.Sorted {
 		out.Events = append([]Event(nil), e.events...)
 		// canonical order: the replay compares event multisets for parallel graphs
 		sort.SliceStable(out.Events, func(i, j int) bool { return lexLess(out.Events[i].Code(), out.Events[j].Code()) })
@@ -595,7 +596,7 @@ func (e *Exec) CoqCase() string {
 	for i := range e.Ops {
 		steps[i] = fmt.Sprintf("(%s, %s)", e.Ops[i].Coq(), e.Samples[i].Coq())
 	}
-	return fmt.Sprintf("(%d%%nat, %s, [%s])", e.MaxHeight, hx.Bool(e.Par > 0), strings.Join(steps, ";\n  "))
+	return fmt.Sprintf("(%d%%nat, %s, [%s])", e.MaxHeight, hx.Bool(e.Par > 0 || e.Sorted), strings.Join(steps, ";\n  "))
 }
 
 func (e *Exec) OpStrings() []string {
